@@ -4,7 +4,7 @@
    [items m] is the metric's content in order.  All statements hold in every
    reachable metric state. *)
 From V Require Import Metrics.LabelKey Metrics.MetricMap Metrics.Gc
-  Proofs.MetricMapCorollaries Proofs.GcProofs Proofs.GcRefine Proofs.GcCorollaries.
+  Proofs.MetricMapCorollaries Proofs.GcProofs Proofs.GcRefine Proofs.GcCorollaries Proofs.GcHistory.
 Local Open Scope Z_scope.
 
 (* the loops compute: limit phase, then filter *)
@@ -68,6 +68,89 @@ Proof.
   split; [eexists _, _; apply surjective_pairing|vm_compute; reflexivity].
 Qed.
 
+(* ------------------------------------------------------------------ *)
+(* Several passes.  A history is a list of events: [EOps ops] (any operations
+   on the metric: creates, updates with earlier or later timestamps, expiry
+   marks, removals) and [EGc now] (one pass of Store.Gc at time [now]);
+   [h_state encode limit (c_init n t) evs] is the metric after the history.
+   A pass is itself a sequence of RemoveDatum calls: *)
+Theorem C10_gc_reachable :
+  forall n t m limit now, reachable n t m -> reachable n t (c_gc encode limit now m).
+Proof. exact reachable_gc. Qed.
+
+(* so every state of every history is a reachable state, and every theorem
+   above applies to each pass whatever the earlier passes did *)
+Theorem C10_history_reachable :
+  forall n t limit evs, reachable n t (h_state encode limit (c_init n t) evs).
+Proof. exact reachable_history_init. Qed.
+
+(* EVERY pass of EVERY history computes "limit phase, then filter" of the
+   content it finds: nothing remembered from an earlier pass has any influence *)
+Theorem C10_every_pass_exact :
+  forall n t limit pre now,
+    items (h_state encode limit (c_init n t) (pre ++ [EGc now])) =
+    gc limit now (items (h_state encode limit (c_init n t) pre)).
+Proof. exact every_pass_exact. Qed.
+
+(* the clauses of the property at every pass: bound, oldest first, ... *)
+Theorem C10_every_pass_limit :
+  forall n t limit pre,
+    let b := h_state encode limit (c_init n t) pre in
+    let mid := c_limit_phase encode limit b in
+    ((0 < limit)%nat -> (limit < length (m_slice b))%nat -> length (m_slice mid) = limit) /\
+    ((limit = 0 \/ length (m_slice b) <= limit)%nat -> items mid = items b) /\
+    (forall r k, In r (items b) -> ~ In r (items mid) -> In k (items mid) -> e_time r <= e_time k).
+Proof. exact every_pass_limit. Qed.
+
+(* ... a datum survives the pass iff it survived the limit phase and is not
+   (marked with E > 0 and last updated more than E before now), with the
+   timestamp and the mark it has AT THAT PASS ... *)
+Theorem C10_every_pass_expiry :
+  forall n t limit pre now d,
+    - two63 < now - c_time (snd (snd d)) < two63 ->
+    (In d (items (h_state encode limit (c_init n t) (pre ++ [EGc now]))) <->
+     In d (items (c_limit_phase encode limit (h_state encode limit (c_init n t) pre))) /\
+     ~ (0 < c_expiry (snd (snd d)) /\ c_expiry (snd (snd d)) < now - c_time (snd (snd d)))).
+Proof. exact every_pass_expiry. Qed.
+
+Theorem C10_every_pass_expiry_saturated :
+  forall n t limit pre now d,
+    (In d (items (h_state encode limit (c_init n t) (pre ++ [EGc now]))) <->
+     In d (items (c_limit_phase encode limit (h_state encode limit (c_init n t) pre))) /\
+     expired now (snd (snd d)) = false).
+Proof. exact every_pass_expiry_saturated. Qed.
+
+(* ... and nothing else changes *)
+Theorem C10_every_pass_frame :
+  forall n t limit pre now,
+    subseq (items (h_state encode limit (c_init n t) (pre ++ [EGc now])))
+           (items (h_state encode limit (c_init n t) pre)).
+Proof. exact every_pass_frame. Qed.
+
+(* The whole history, results of all operations and listings after all passes
+   included, is the history of an insertion-ordered map keyed by the exact
+   tuple on which a pass is [gc limit now]. *)
+Theorem C10_history_refines :
+  forall n t limit evs m tr,
+    h_run encode limit (c_init n t) evs = (m, tr) ->
+    ah_run limit (a_init n t) evs = (abs m, tr).
+Proof. exact history_refines_init. Qed.
+
+(* a timestamp that moves BACKWARDS between two passes: "a" (marked 200) is not
+   due at the first pass (1000 - 900 = 100), is then updated by a line stamped
+   700, and must be collected by the second pass at 1001 (301 > 200) although
+   no new mark was placed; "b" (same mark) and the unmarked "c" stay *)
+Example C10_history_nontrivial :
+  let evs1 := [EOps [OSet [[97]]%N (VInt 1) 900; OSet [[98]]%N (VInt 2) 900; OSet [[99]]%N (VInt 3) 0;
+                     OExpire [[97]]%N 200; OExpire [[98]]%N 200];
+               EGc 1000] in
+  let evs2 := evs1 ++ [EOps [OSet [[97]]%N (VInt 5) 700]] in
+  map fst (items (h_state encode 0 (c_init 1 TInt) evs1)) = [[[97]]; [[98]]; [[99]]]%N /\
+  map (fun e => (fst e, c_time (snd (snd e)))) (items (h_state encode 0 (c_init 1 TInt) evs2))
+    = [([[97]]%N, 700); ([[98]]%N, 900); ([[99]]%N, 0)] /\
+  map fst (items (h_state encode 0 (c_init 1 TInt) (evs2 ++ [EGc 1001]))) = [[[98]]; [[99]]]%N.
+Proof. vm_compute. repeat split. Qed.
+
 Print Assumptions C10_gc_refines.
 Print Assumptions C10_limit_bound.
 Print Assumptions C10_limit_unchanged.
@@ -76,3 +159,11 @@ Print Assumptions C10_expiry_exact.
 Print Assumptions C10_expiry_saturated.
 Print Assumptions C10_frame.
 Print Assumptions C10_store_pointwise.
+Print Assumptions C10_gc_reachable.
+Print Assumptions C10_history_reachable.
+Print Assumptions C10_every_pass_exact.
+Print Assumptions C10_every_pass_limit.
+Print Assumptions C10_every_pass_expiry.
+Print Assumptions C10_every_pass_expiry_saturated.
+Print Assumptions C10_every_pass_frame.
+Print Assumptions C10_history_refines.
